@@ -119,7 +119,20 @@ def _participants(rxn_dicts):
 def _substances(names, comp):
     from chempy import Substance
 
-    return OrderedDict((n, Substance(n, composition=dict(comp[n]))) for n in names)
+    # charged species are declared in both documented ways: composition[0] given directly (A+, AB-), or charge= next to a
+    # composition of the elements only (B-, and the bare electron with an EMPTY composition)
+    out = OrderedDict()
+    for n in names:
+        c = dict(comp[n])
+        if 0 in c and n in CHARGE_BY_KEYWORD:
+            q = c.pop(0)
+            out[n] = Substance(n, charge=q, composition=c)
+        else:
+            out[n] = Substance(n, composition=c)
+    return out
+
+
+CHARGE_BY_KEYWORD = ("e-", "B-", "Fe+3", "OH-")
 
 
 def _mk_system(rxn_dicts, names, comp, params=None):
